@@ -21,6 +21,7 @@ MC = """CONSTANTS NU = {nu}
  Seeded = {seeded}
  InitName <- {names}
  DetachSeed = {detach}
+ UserSeeded = {{}}
  MaxModels = 2
  Atoms = {{"p", "q"}}
 SPECIFICATION Spec
@@ -32,7 +33,7 @@ INVARIANT FrozenOK
 INVARIANT CycleRejected
 """
 PROPS = "PROPERTY FrozenA\nPROPERTY IndependentA\n"
-TV_CFG = ('CONSTANTS NU = 4\n UIn <- UIn1\n Seeded = {4}\n InitName <- Names1\n DetachSeed = TRUE\n'
+TV_CFG = ('CONSTANTS NU = 4\n UIn <- UIn1\n Seeded = {4}\n InitName <- Names1\n DetachSeed = TRUE\n UserSeeded = {}\n'
           ' MaxModels = 4\n Atoms = {"1.0"}\n')
 
 
@@ -77,6 +78,14 @@ def run(chk: Check):
     chk.tv("Trace_LieselBuild.tla", cyc, tag="cyclic_universe_seeded",
            cfg_extra=TV_CFG.replace("UIn <- UIn1", "UIn <- UInCycT").replace("Seeded = {4}", "Seeded = {2}"),
            keyfn=lambda r: f"build:cyclic_seeded:{r.conjunct}")
+    # a seeded node whose seed the user wired in: the model adds no seed node for it and never takes the input away
+    useed = [B.random_trace(rng, nops=rng.randint(8, 18), user_seed=True) for _ in range(80 if chk.quick else 1500)]
+    chk.tv("Trace_LieselBuild.tla", useed, tag="objects_user_seed",
+           cfg_extra=TV_CFG.replace("NU = 4", "NU = 5").replace("UIn <- UIn1", "UIn <- UIn5").replace("Seeded = {4}", "Seeded = {}")
+           .replace("InitName <- Names1", "InitName <- Names5").replace("UserSeeded = {}", "UserSeeded = {4}"),
+           keyfn=lambda r: f"build:user_seed:{r.conjunct}:{r.trace['ev'][r.line - 1]['ev']}:{r.trace['ev'][r.line - 1].get('reason', '')}",
+           describe=lambda r: str([(x["ev"], x.get("o"), x.get("m"), x.get("copy"), x.get("how"), x.get("which"),
+                                    x.get("reason")) for x in r.trace["ev"][: r.line]])[:600])
     chk.tv("Trace_LieselBuild.tla", traces, tag="objects", cfg_extra=TV_CFG, nontrivial=nontrivial,
            keyfn=lambda r: f"build:{r.conjunct}:{r.trace['ev'][r.line - 1]['ev']}:{r.trace['ev'][r.line - 1].get('reason', '')}",
            describe=lambda r: str([(x["ev"], x.get("o"), x.get("m"), x.get("copy"), x.get("how"), x.get("which"),
